@@ -49,8 +49,8 @@ type Op struct {
 	ThinkMs  int64    `json:"think_ms"`  // sleep before the request
 	Frag     []int    `json:"frag"`      // body fragment sizes (cycled); empty = one piece
 	StallUs  int64    `json:"stall_us"`  // sleep between fragments
-	Hostile  string   `json:"hostile"`   // "" or a hostile-body recipe
-	HostileN int      `json:"hostile_n"` // parameter of the recipe
+	Hostile  string   `json:"hostile"`   // "" or hostile recipes joined by '+'
+	HostileN int      `json:"hostile_n"` // parameter of the recipes
 	CancelMs int64    `json:"cancel_ms"` // >0: client goes away after that long
 	Restart  bool     `json:"restart"`   // not a request: restart the writer process (crash, durable DB state survives)
 }
@@ -62,11 +62,13 @@ type Client struct {
 
 // Scenario is everything that decides a run.
 type Scenario struct {
-	Cfg     SysCfg         `json:"cfg"`
-	Clients []Client       `json:"clients"`
-	Faults  []chfake.Fault `json:"faults"`
-	HealMs  int64          `json:"heal_ms"` // faults stop at this simulated instant after start
-	Sched   []byte         `json:"sched"`
+	Cfg        SysCfg         `json:"cfg"`
+	Clients    []Client       `json:"clients"`
+	Faults     []chfake.Fault `json:"faults"`
+	HealMs     int64          `json:"heal_ms"` // faults stop at this simulated instant after start
+	Sched      []byte         `json:"sched"`
+	ProbeKnown bool           `json:"probe_known,omitempty"` // set only in findings/ replay files: do not exclude input classes of listed known findings
+	SchedSeed  uint64         `json:"sched_seed"`            // PRNG seed for scheduler decisions after the tape is used up (0 = lowest id first)
 }
 
 var labelNames = []string{"app", "env", "zone", "job", "le", "host-name", "1abc", "a.b"}
@@ -143,6 +145,9 @@ func genOp(rt *rapid.T, l string, timerMs int, pool [][][2]string, hostile bool)
 	}
 	if hostile && rapid.IntRange(0, 1).Draw(rt, l+".hostile") == 0 {
 		op.Hostile = rapid.SampledFrom(hostileRecipes).Draw(rt, l+".recipe")
+		if rapid.Bool().Draw(rt, l+".two") {
+			op.Hostile += "+" + rapid.SampledFrom(hostileRecipes).Draw(rt, l+".recipe2")
+		}
 		op.HostileN = rapid.IntRange(0, 100000).Draw(rt, l+".hn")
 	}
 	return op
@@ -213,6 +218,7 @@ func genScenario(rt *rapid.T, hostile bool) Scenario {
 	}
 	s.Faults = genFaults(rt)
 	s.HealMs = rapid.SampledFrom([]int64{50, 1000, 20000}).Draw(rt, "heal")
-	s.Sched = rapid.SliceOfN(rapid.Byte(), 0, 400).Draw(rt, "sched")
+	s.Sched = rapid.SliceOfN(rapid.Byte(), 0, 64).Draw(rt, "sched")
+	s.SchedSeed = rapid.Uint64().Draw(rt, "schedseed")
 	return s
 }
